@@ -186,7 +186,78 @@ def o_map(a):
                                                                                  map_zero_in_interior=int((m <= 0).sum()))
 
 
-ORACLES = dict(disk=o_disk, annulus=o_annulus, point=o_point, gauss=o_gauss, image=o_image, map=o_map)
+def o_digitize(a):
+    """intensity maps on a grid that does not contain everything: positions are binned in the pixel that contains them, positions outside the
+    grid (beyond any edge) are dropped, never folded back; a point source outside the map leaves it empty"""
+    from ixpeobssim.utils.astro import build_wcs, wcs_digitize
+    from ixpeobssim.srcmodel.roi import xPointSource
+    g = numpy.random.default_rng(a['seed'])
+    nside, pix = a['nside'], a['pix']
+    w = build_wcs(a['ra'], a['dec'], nside, pix)
+    half = 0.5 * nside * pix
+    n = 20000
+    # positions over twice the extent of the map in both directions: three quarters of them are outside
+    dec = a['dec'] + g.uniform(-2. * half, 2. * half, n)
+    ra = a['ra'] + g.uniform(-2. * half, 2. * half, n) / numpy.cos(numpy.radians(a['dec']))
+    got = numpy.array(wcs_digitize(w, ra, dec), dtype=float)
+    px, py = w.wcs_world2pix(ra, dec, 0)
+    ix, iy = numpy.floor(px + 0.5).astype(int), numpy.floor(py + 0.5).astype(int)
+    ok = (ix >= 0) & (ix < nside) & (iy >= 0) & (iy < nside)
+    exp = numpy.zeros((nside, nside))
+    numpy.add.at(exp, (iy[ok], ix[ok]), 1)
+    # pixels whose events sit within 1e-6 pixel of an edge are not compared
+    edge = numpy.zeros((nside, nside), bool)
+    near = ok & ((numpy.abs(px + 0.5 - numpy.round(px + 0.5)) < 1e-6) | (numpy.abs(py + 0.5 - numpy.round(py + 0.5)) < 1e-6))
+    edge[iy[near], ix[near]] = True
+    bad = []
+    if got.shape != exp.shape:
+        bad.append('map of shape %s for a %d x %d grid' % (got.shape, nside, nside))
+    else:
+        dif = (got != exp) & ~edge
+        if dif.any() or abs(got.sum() - ok.sum()) > near.sum():
+            j = numpy.argwhere(dif)[0] if dif.any() else (0, 0)
+            bad.append('%d pixels differ from the independent binning (e.g. row %d, col %d: %d vs %d); map total %d, positions inside the grid %d' % (
+                int(dif.sum()), j[0], j[1], got[j[0], j[1]], exp[j[0], j[1]], int(got.sum()), int(ok.sum())))
+    for dra, ddec, inside in ((0., 0., True), (0.3 * half, 0.2 * half, True), (0., 1.4 * half, False), (0., -1.7 * half, False), (1.5 * half, 0., False), (-1.3 * half, 1.2 * half, False)):
+        src = xPointSource('p', a['ra'] + dra / numpy.cos(numpy.radians(a['dec'])), a['dec'] + ddec, *spec())
+        m = numpy.array(src.build_intensity_map(w), dtype=float)
+        if inside and not (m.sum() == 1. and (m > 0).sum() == 1):
+            bad.append('point source inside the map: %d non-zero pixels, total %r' % (int((m > 0).sum()), float(m.sum())))
+        if not inside and m.sum() != 0.:
+            k = numpy.argwhere(m > 0)[0]
+            bad.append('point source outside the map (offset %.3f, %.3f deg) shows up at row %d, col %d' % (dra, ddec, k[0], k[1]))
+    return not bad, dict(violated=bad, inside=int(ok.sum()), outside=int((~ok).sum()))
+
+
+def o_mctruth(a):
+    """the Monte Carlo sky positions kept in the event list are the sampled ones: a point source sits exactly on its position, disk events inside
+    the disk — also after the PSF has displaced the measured positions"""
+    import simdrive
+    from ixpeobssim.srcmodel.roi import xPointSource, xUniformDisk, xROIModel
+    from ixpeobssim.irf import load_irf_set, DEFAULT_IRF_NAME
+    R = 30. / 3600.
+    roi = xROIModel(a['ra'], a['dec'])
+    roi.add_sources(xPointSource('p', a['ra'], a['dec'], *spec()), xUniformDisk('d', a['ra'] + 0.05 / numpy.cos(numpy.radians(a['dec'])), a['dec'] - 0.03, R, *spec()))
+    irf_set = load_irf_set(DEFAULT_IRF_NAME, a['du'])
+    kwargs = simdrive.sim_kwargs(simdrive.config_path('toy_point_source.py'), 'unused.fits', start_met=0., duration=200.)
+    numpy.random.seed(a['seed'])
+    el = roi.rvs_event_list(irf_set, **kwargs)
+    src = numpy.array(el['SRC_ID']).astype(int)
+    mra, mdec = numpy.array(el['MC_RA'], dtype=float), numpy.array(el['MC_DEC'], dtype=float)
+    bad = []
+    p = src == 0
+    off = numpy.hypot((mra[p] - a['ra']) * numpy.cos(numpy.radians(a['dec'])), mdec[p] - a['dec']) * 3600.
+    if p.sum() and off.max() > 1e-6:
+        bad.append('%d of %d point-source events have a Monte Carlo position off the source position (up to %.1f arcsec)' % (int((off > 1e-6).sum()), int(p.sum()), off.max()))
+    dmask = src == 1
+    x, y = tangent(mra[dmask], mdec[dmask], a['ra'] + 0.05 / numpy.cos(numpy.radians(a['dec'])), a['dec'] - 0.03)
+    r = numpy.hypot(x, y)
+    if dmask.sum() and (r > R * (1 + 1e-6)).any():
+        bad.append('%d of %d disk events have a Monte Carlo position outside the %.0f arcsec disk (up to %.1f arcsec)' % (int((r > R * (1 + 1e-6)).sum()), int(dmask.sum()), R * 3600., r.max() * 3600.))
+    return not bad and p.sum() > 100 and dmask.sum() > 100, dict(violated=bad, point_events=int(p.sum()), disk_events=int(dmask.sum()))
+
+
+ORACLES = dict(digitize=o_digitize, mctruth=o_mctruth, disk=o_disk, annulus=o_annulus, point=o_point, gauss=o_gauss, image=o_image, map=o_map)
 
 
 def run_oracle(chk, name, a, nontrivial=True):
@@ -219,6 +290,9 @@ def explore(chk, budget=1):
             run_oracle(chk, 'map', dict(kind='disk', ra=ra, dec=dec, rmax=0.05, seed=sd))
             run_oracle(chk, 'map', dict(kind='annulus', ra=ra, dec=dec, rmin=0.02, rmax=0.05, seed=sd))
             run_oracle(chk, 'map', dict(kind=['disk', 'annulus'][i % 4 // 2], ra=ra, dec=dec, rmin=0.02, rmax=0.05, seed=sd, overview=float(g.choice([1.6, 2.5]))))
+    for (ra, dec) in centres(g, 0)[:3 if quick else 6]:
+        run_oracle(chk, 'digitize', dict(ra=ra if ra > 1. else ra + 3., dec=dec, nside=int(g.choice([20, 31, 40])), pix=float(g.uniform(2., 8.)) / 3600., seed=int(g.integers(1, 10 ** 6))))
+    run_oracle(chk, 'mctruth', dict(ra=float(g.uniform(5, 355)), dec=float(g.uniform(-60, 60)), du=int(g.integers(1, 4)), seed=int(g.integers(1, 10 ** 6))))
     run_oracle(chk, 'image', dict(shape=(128, 160) if quick else (256, 256), profile='core', ra=float(g.uniform(5, 355)), dec=float(g.uniform(-60, 60)), seed=int(g.integers(1, 10 ** 6))))
     for shape in ([(7, 7), (5, 9), (9, 5)] if quick else [(7, 7), (5, 9), (9, 5), (12, 4), (3, 11), (16, 16)]):
         run_oracle(chk, 'image', dict(shape=shape, ra=float(g.uniform(5, 355)), dec=float(g.uniform(-60, 60)), seed=int(g.integers(1, 10 ** 6))), nontrivial=shape[0] != shape[1])
